@@ -42,6 +42,11 @@ def _fixed_streams():
         # a single INTEGER with a guiding type, and schemaless
         ('int', 'ber', 'int', '020105', 1),
         ('two-ints-schemaless', 'ber', None, '0202012c020105', 2),
+        # an untagged ANY capturing an indefinite-length element (the decoder goes back to the element's mark and reads
+        # the header again), in a record and at top level; then a definite one
+        ('any-indef-in-seq', 'ber', '(seq (r int) (r any))', '300a02010224800401610000', 1),
+        ('any-indef-top', 'ber', 'any', '30800201050000' + '0500', 2),
+        ('any-def-in-seq', 'ber', '(seq (r int) (r any))', '30080201020403616263', 1),
     ]
 
 
